@@ -333,3 +333,22 @@ func BlockedSenders() int { return 0 }
 
 // CtxFired reports whether the context has been cancelled / has expired.
 func CtxFired(ctx interface{ Err() error }) bool { return ctx.Err() != nil }
+
+// Native reports whether the harness runs natively (replay) rather than under the symbolic engine.
+func Native() bool { return true }
+
+// MapExtraLen tells the symbolic engine that map m holds n further entries that are not materialised
+// (natively the harness inserts real entries instead; this is a no-op).
+func MapExtraLen(m any, n int) {}
+
+// MutexHeld reports whether mu is currently locked.
+func MutexHeld(mu interface {
+	TryLock() bool
+	Unlock()
+}) bool {
+	if mu.TryLock() {
+		mu.Unlock()
+		return false
+	}
+	return true
+}
